@@ -291,9 +291,12 @@ def plan_C14(tier, seed):
     ev = eval_jobs("c14", [("F3", 2), ("F5", 1), ("U1", 1), ("DUP", 1), ("W", 1), ("FK", 1)], "2020") + eval_jobs("c14", [("G2", 2), ("G5", 1)], "d7")
     rs = res_jobs("c14", [("R2", 1)])
     lit = [cod_job("c14", "PO", 2, ["OrderRefines"]), cod_job("c14", "RT", 1, ["RoundTripKeepsMeaning", "KeepsKeywords"])]
+    rv = rep_job("c14", "RV", 1, [], workers=6)
     return dict(
-        tlc=[life] + ev + rs + lit, parallel=4,
+        tlc=[life] + ev + rs + lit + [rv], parallel=4,
         replay=[dict(name="c14_history", family="history", inputs=[life["name"]]),
+                # the instance in every Go representation (typed slices, arrays, maps, pointers): untouched by Validate
+                dict(name="c14_instances", family="repval", inputs=[rv["name"]], kinds=["validate-modifies-instance"]),
                 dict(name="c14_literals", family="purelit", inputs=[j["name"] for j in lit], processes=2),
                 dict(name="c14_pure", family="pure", inputs=[j["name"] for j in ev + rs],
                      processes=2 if tier == "quick" else 4)],
@@ -306,7 +309,9 @@ def plan_C14(tier, seed):
              "each Validate three times, Marshal before/after, and the whole replay repeated in 2 (thorough 4) fresh "
              "processes whose digests of verdict vectors and bytes must be identical. (c) Schema LITERALS of the codec families (every "
              "field state; all PropertyOrder lists incl. stale names, built with spare slice capacity): Marshal x4 and Resolve "
-             "must leave the deep fingerprint unchanged and agree byte for byte, also across processes. Non-trivial = history longer than one "
+             "must leave the deep fingerprint unchanged and agree byte for byte, also across processes. (d) the represented instances "
+             "of MC_Reps RV (typed slices / arrays / maps / interior pointers) x its schemas: fingerprint of the instance before and "
+             "after every Validate. Non-trivial = history longer than one "
              "call / discriminating verdict vector.",
         exhaustive=True, assumptions=["TLC", "harness deep fingerprint (reflection) of Schema trees and instances"])
 
